@@ -13,6 +13,7 @@ THEOREMS = [
     "B2Z.Plink.buffer_run_spec", "B2Z.Plink.buffer_run_aligned", "B2Z.Plink.C16_convert_refines_spec",
     "B2Z.Plink.C16_call_injective", "B2Z.Plink.C16_rows_injective", "B2Z.Plink.C16_encodeRow_bytes",
 ]
+GEN_DEPENDS = ["Partitions."]
 ASSUMPTIONS = [
     "bed_reader decodes the .bed bit layout as modelled (count_A1=False: 0/1/2/-127) — validated on every run against an independent bit-level writer",
     "zarr writes of disjoint chunk-aligned row blocks do not disturb each other (atomic per chunk file)",
